@@ -400,8 +400,6 @@ def _restrict_refs(M):
         M.pop('SHORT', None)
     if M.get('INCON'):
         M['INCON'] = dict((k, v) for k, v in M['INCON'].items() if k in blocks)
-    if M.get('PARAM') and blocks and M['PARAM'].get('print_block') not in blocks:
-        pass
     return M
 
 
@@ -463,8 +461,6 @@ def apply_dev(M, order, dev):
         elif 'CONNE' not in keep:
             M2['CONNE'] = []
         M2 = _restrict_refs(M2)
-        if M2.get('PARAM'):
-            M2['PARAM'] = dict(M2['PARAM'])
         return _prune(M2, [s for s in order if s in keep or s in ('ELEME', 'CONNE')])
     if kind == 'move':
         S, j = dev[1], dev[2]
@@ -734,8 +730,6 @@ def _apply_none(M, order, rec_id, flds):
                     node.pop(k, None)
             if rec_id == 'gener1' and f == 'ltab':
                 node['time'], node['rate'], node['enthalpy'], node['itab'] = [], [], [], None
-            if rec_id == 'param2' and f == 'print_block':
-                pass
     if M.get('MESHM'):
         M['MESHM'] = [(t, s) if t != 'rz2d' else (t, [(a, b) for a, b in s]) for t, s in M['MESHM']]
     return M, order
@@ -964,7 +958,7 @@ def run_unit(unit, tier, rec):
     for case in cases:
         viol, info = run_case(case)
         if info.get('outcome') == 'not-applicable':
-            rec.count('pairs_not_applicable', 1)       # second deviation has nothing left to act on
+            rec.count('cases_not_applicable', 1)       # second deviation has nothing left to act on, or mode exclusion
             continue
         rec.case(case_key(case), nontrivial=info.get('written', False), outcome=info.get('outcome'))
         rec.count('k=%d' % len(case['devs']), 1)
@@ -1083,7 +1077,9 @@ def _compare_files(f1, f2, strip, tag, inp, viol):
         ba, bb = _blocks_of(a), _blocks_of(b)
         sa, sb = [(k, n) for k, n, l in ba], [(k, n) for k, n, l in bb]
         if sa != sb:
-            viol.append(('C01|%s|keyword-lines-differ|%s|%s' % (tag, key, inp),
+            ka, kb = [k for k, n in sa] + ['<eof>'], [k for k, n in sb] + ['<eof>']
+            j = next(i for i in range(min(len(ka), len(kb))) if ka[i] != kb[i])
+            viol.append(('C01|%s|keyword-lines-differ|%s:%s->%s|%s' % (tag, key, ka[j], kb[j], inp),
                          '%s: %s file has keyword lines %s, before %s' % (tag, key, [k for k, n in sb],
                                                                           [k for k, n in sa])))
         db = dict(((k, n), l) for k, n, l in bb)
@@ -1327,6 +1323,9 @@ def _chain(M, order, mode, flavour, end_kw):
                      're-read object announces %s, file holds %s' % (list(r1._sections), exp_r1)))
     diffs = t2canon.compare(expect, t2canon.canon(r1), **_cmp_kwargs(mode, 'r1'))
     _diff_viol('read(w1)', diffs, inp, viol, 're-read object differs from the object written')
+    if r1.end_keyword != end_kw:
+        viol.append(('C01|read(w1)|end-keyword|%s->%s|%s' % (end_kw, r1.end_keyword, inp),
+                     're-read object has end keyword %r, file ends with %r' % (r1.end_keyword, end_kw)))
     # the echo flag can be seen in the files only when at least one extra-precision section is in the main file
     echo_seen = bool(xp and mode['echo'] and any(s in exp_main for s in xp))
     if xp:
@@ -1339,10 +1338,15 @@ def _chain(M, order, mode, flavour, end_kw):
             viol.append(('C01|read(w1)|echo-flag|echo=%s|%s' % (bool(mode['echo']), inp),
                          're-read object has echo_extra_precision=%s, file was written with %s'
                          % (r1.echo_extra_precision, bool(mode['echo']))))
-    # ---- w2, r2, w3  (remedy for a lost echo flag: pass it again, so that the rest is still explored)
+    # ---- w2, r2, w3  (a lost echo flag has been reported above; it is restored on the re-read objects - what
+    # a correct read would have produced - so that the rest of the chain is still explored behind that defect)
     kw2 = {}
-    if echo_seen:
-        kw2 = {'echo_extra_precision': True}
+
+    def remedy(r):
+        if echo_seen and not r.echo_extra_precision:
+            r._echo_extra_precision = True
+            r.update_read_write_functions()
+    remedy(r1)
     try:
         with _quiet():
             r1.write(os.path.join(d, 'w2', 'model.dat'), _mesh_arg(d, 'w2', mode['mesh']), **kw2)
@@ -1359,6 +1363,7 @@ def _chain(M, order, mode, flavour, end_kw):
         with _quiet():
             r2 = t2data.t2data(os.path.join(d, 'w2', 'model.dat'), _mesh_arg(d, 'w2', mode['mesh']))
             info['steps'] = 4
+            remedy(r2)
             r2.write(os.path.join(d, 'w3', 'model.dat'), _mesh_arg(d, 'w3', mode['mesh']), **kw2)
             info['steps'] = 5
     except core.CaseTimeout:
